@@ -635,7 +635,25 @@ func init() {
 					if strings.Contains(s, "(p ") {
 						units = append(units, Unit{"VerifC16", []string{s, "p", "pair", ""}})
 					}
+					// the name whose cost is raised may be an operator name
+					for k, op := range opsOf(s) {
+						if k >= 2 {
+							break
+						}
+						// `if` is a keyword, not an operator with a configurable cost
+						if op != "p" && op != "if" {
+							units = append(units, Unit{"VerifC16", []string{s, op, "pair", ""}})
+						}
+					}
 					units = append(units, Unit{"VerifC16", []string{s, vs[0], "equal", ""}}, Unit{"VerifC16", []string{s, vs[0], "equal", "v"}})
+				}
+				// alias spellings of and/or are names of their own: a cost entry for one spelling says nothing about the others
+				for _, s := range []string{"(or (&& b0 b1) (and b2 b3))", "(or (and b0 b1) (&& b2 b3) (|| b4 b5))", "(and (= i0 1) (| b0 b1) (or b2 b3))",
+					"(& (|| b0 b1) (or b2 b3) b4)", "(and (or b0 b1) (& b2 b3) (&& b4 b5))", "(|| (and b0 b1) (& b2 b3) (> i0 i1))"} {
+					for _, op := range opsOf(s) {
+						units = append(units, Unit{"VerifC16", []string{s, op, "pair", ""}})
+					}
+					units = append(units, Unit{"VerifC16", []string{s, "b0", "pair", "vo"}}, Unit{"VerifC16", []string{s, "b0", "equal", ""}})
 				}
 				// many operands (the sort switches algorithm above 12 elements): ties must still keep source order
 				for _, n := range []int{5, 12, 13, 14, 20, 33} {
@@ -664,7 +682,7 @@ func init() {
 		Reach: []string{"pair", "p3", "p4", "p5", "equal-cost-siblings", "special-cost"},
 		Bounds: func(tier string) map[string]interface{} {
 			maxM, _ := shapeTierParams(tier)
-			return map[string]interface{}{"shapes": "all typed shapes with ≤" + itoa(maxM) + " internal nodes containing and/or (all-variable leaves) + 10 wider shapes (≤4 and/or operands) + and/or with 5, 12, 13, 14, 20, 33 tying operands (one name with its own cost)",
+			return map[string]interface{}{"shapes": "all typed shapes with ≤" + itoa(maxM) + " internal nodes containing and/or (all-variable leaves) + 10 wider shapes (≤4 and/or operands) + 6 shapes mixing the alias spellings & && | || with and/or; the raised name is a variable, a custom operator or an operator name (the first two of each shape, every one in the alias shapes) + and/or with 5, 12, 13, 14, 20, 33 tying operands (one name with its own cost)",
 				"costs": "integer-valued symbolic costs in [-10^6,10^6] for up to 3 other names, the `variable`/`operator` defaults present or absent; the raised entry ranges up to 2^40; concrete NaN/±Inf/-0/0.5/±1e300 for P1 only",
 				"sort":  "every comparison outcome of the real sort.stable_func on symbolic costs is a path"}
 		},
@@ -798,7 +816,7 @@ func init() {
 			}
 			kinds := []string{"int", "int8", "int16", "int32", "int64", "uint8", "uint16", "uint32", "uint64", "bool", "string", "time", "duration", "ints", "int32s", "int64s", "strs"}
 			layouts := []string{"explicit:0,1,2", "explicit:0,255,7", "explicit:0,256,7", "explicit:-1,3,4", "explicit:255,254,253", "explicit:32767,1,2", "explicit:5,6,-32768", "explicit:300,301,302",
-				"symbolic-map", "register:012", "register:021", "register:102", "register:120", "register:201", "register:210", "regvarandop", "undefined", "evalfunc"}
+				"symbolic-map", "hist:small:0:r", "hist:small:1:r", "hist:small:2:r", "hist:small:01:r", "hist:small:0:12", "hist:small:1:20", "hist:small:02:1", "hist:out:0:r", "hist:out:2:r", "hist:out:1:02", "hist:out:01:r", "register:012", "register:021", "register:102", "register:120", "register:201", "register:210", "regvarandop", "undefined", "evalfunc"}
 			for li, l := range layouts {
 				// every kind in every position over the layouts (rotating), plus uniform vectors on the first layouts
 				for k := range kinds {
@@ -811,7 +829,7 @@ func init() {
 		Reach: []string{"existing", "new", "layout"},
 		Bounds: func(tier string) map[string]interface{} {
 			return map[string]interface{}{"key_allocation": "0..3 (4 thorough) pre-registered names with arbitrary pairwise distinct int16 keys (solver variables), then ≤3 registrations of new/existing names",
-				"layouts":  "8 explicit concrete key triples on both sides of the 0..255 fetcher boundary, arbitrary distinct symbolic keys with at least one outside 0..255 (map fetcher), GetOrRegisterKey in all 6 orders, RegVarAndOp and the Eval convenience function under every map iteration order, undefined-variable mode",
+				"layouts":  "8 explicit concrete key triples on both sides of the 0..255 fetcher boundary, arbitrary distinct symbolic keys with at least one outside 0..255 (map fetcher), a pre-populated key map (one or two names with arbitrary distinct keys in 0..6, or outside 0..255) followed by RegVarAndOp or GetOrRegisterKey for the remaining names (11 histories), GetOrRegisterKey in all 6 orders, RegVarAndOp and the Eval convenience function under every map iteration order, undefined-variable mode",
 				"bindings": "17 Go kinds (int, int8-64, uint8-64, bool, string, time.Time, Duration, []int, []int32, []int64, []string) with arbitrary contents, every kind in every variable position"}
 		},
 		Rule:        "key units: one per (pre-registered count, script); layout units: one per (layout, kind vector); a state is one symbolic path",
@@ -1069,7 +1087,8 @@ func init() {
 			for l := 0; l <= maxL; l++ {
 				units = append(units, Unit{"VerifC14Format", []string{itoa2(l), "", ""}})
 			}
-			for _, c := range [][2]string{{"(= s \"a", "\")"}, {"(= s \"", "\")"}, {"(and a ;c", "\n b)"}, {"a", "b"}, {"(in a (1 ", "))"}, {"(a", ")"}, {"\"x\"", "\"y\""}, {"a,", " b"}, {"[1 ", "]"}, {";;;; optimize:false\n", "(+ 1 1)"}, {"(and\n  a\n  ", "\n  b)"}} {
+			for _, c := range [][2]string{{"(= s \"a", "\")"}, {"(= s \"", "\")"}, {"(and a ;c", "\n b)"}, {"a", "b"}, {"(in a (1 ", "))"}, {"(a", ")"}, {"\"x\"", "\"y\""}, {"a,", " b"}, {"[1 ", "]"}, {";;;; optimize:false\n", "(+ 1 1)"}, {"(and\n  a\n  ", "\n  b)"},
+				{"(in s (\"a", "\" \"x  (y ;z\"))"}, {"(= \"", "\" \"a  )b\")"}, {"(and a ;c", "\n (= s \"x  (y\"))"}} {
 				lmax := 2
 				if tier == "thorough" {
 					lmax = 3
@@ -1173,6 +1192,11 @@ func init() {
 				"(? (! (? _ _)) _)", "(! (? (? _ _) _))", "(? (add _ (? _ _)) (! _))", "(if (? _ _) (? _ _) (? _ _))", "(mod (? _ _) (? _ _) _)"} {
 				units = append(units, Unit{"VerifC15", []string{t}})
 			}
+			// list literals of every kind: empty, one element, strings (with a space inside), on either side of overlap
+			for _, t := range []string{"(in _ ())", "(in _ (5))", "(in \"a\" (\"a\" \"b c\"))", "(in \"a\" ())", "(overlap (1 2) ())", "(overlap () ())", "(overlap () (1 2))",
+				"(overlap (\"a\") (\"b\" \"a\"))", "(if (in _ ()) _ _)", "(? (in _ ()) (overlap (1) (1 2)))", "(! (in _ ()))", "(add (if (in _ (1)) _ _) _)", "(? (in _ (1 2)) (! (in _ ())))"} {
+				units = append(units, Unit{"VerifC15", []string{t}})
+			}
 			return units
 		},
 		Reach: []string{"infix"},
@@ -1181,7 +1205,7 @@ func init() {
 			if tier == "thorough" {
 				m = 3
 			}
-			return map[string]interface{}{"templates": "all expression trees with ≤" + itoa(m) + " operator nodes over: binary infix operator, unary !, f(a,b) / f(a,b,c) calls, if(c,a,b), in(x,[1 2 3]), variable/literal/constant leaves; plus 10 shapes with 3 binary operators in every association",
+			return map[string]interface{}{"templates": "all expression trees with ≤" + itoa(m) + " operator nodes over: binary infix operator, unary !, f(a,b) / f(a,b,c) calls, if(c,a,b), in(x,[1 2 3]), variable/literal/constant leaves; plus 10 shapes with 3 binary operators in every association; plus 13 shapes with empty, one-element and string list literals under in/overlap",
 				"operators": "every binary slot ranges over all 16 infix spellings (nondeterministic choice: 16^k combinations per template)", "renderings": "minimal parentheses from the documented precedence table, full parentheses, one redundant pair around every sub-expression",
 				"bindings": "arbitrary int64 / bool per variable (solver variables), typed from the leaf's context"}
 		},
@@ -1222,4 +1246,26 @@ func init() {
 			"(*rand.Rand).Intn(n) returns an arbitrary value in [0,n) (over-approximates every seed); numeric literal texts produced by strconv.Itoa are abstracted as constants of the same value"},
 		WallBudget: shapeBudget,
 	})
+}
+
+// opsOf lists the distinct operator names of a prefix source in order of first occurrence.
+func opsOf(src string) []string {
+	var out []string
+	seen := map[string]bool{}
+	for i := 0; i < len(src); i++ {
+		if src[i] != '(' {
+			continue
+		}
+		j := i + 1
+		for j < len(src) && src[j] != ' ' && src[j] != ')' && src[j] != '(' {
+			j++
+		}
+		name := src[i+1 : j]
+		if name == "" || seen[name] || (name[0] >= '0' && name[0] <= '9') || name[0] == '"' || name[0] == '-' {
+			continue
+		}
+		seen[name] = true
+		out = append(out, name)
+	}
+	return out
 }
